@@ -1,7 +1,7 @@
 #!/bin/bash
-# usage: validate_seeded.sh <Cxx> <mK>   — validates /tmp/mut/Cxx/mK against /repo HEAD and, if it holds,
+# usage: [MUTSRC=/tmp/mut2 MUTTAG=r2] validate_seeded.sh <Cxx> <mK>   — validates /tmp/mut/Cxx/mK against /repo HEAD and, if it holds,
 # stores it as /verif/seeded/Cxx-mK/{patch.diff,demo_test.go,meta.json} with the list of checks that detect it.
-id=$1; k=$2; src=/tmp/mut/$id/$k
+id=$1; k=$2; root=${MUTSRC:-/tmp/mut}; tag=${MUTTAG:-}; src=$root/$id/$k; name=$id-$tag$k
 export GOFLAGS=-mod=mod GOPROXY=off GOSUMDB=off GOTOOLCHAIN=local; unset GOWORK
 wt=$(mktemp -d /tmp/val.XXXXXX)
 git -C /repo worktree add -q --detach "$wt" HEAD || exit 9
@@ -47,17 +47,17 @@ for p in C01 C02 C03 C04 C05 C06 C07 C08 C09 C10 C11 C12 C13 C14 C15 C16 C17 C18
   if [ "$rc" = 2 ]; then det="$det $p(checker-failure)"; fi
 done
 rm -rf "$sv"
-out=/verif/seeded/$id-$k; mkdir -p "$out"
+out=/verif/seeded/$name; mkdir -p "$out"
 cp "$src/patch.diff" "$out/patch.diff"; cp "$src/demo_test.go" "$out/demo_test.go"; cp "$src/README.md" "$out/README.md" 2>/dev/null
-python3 - "$id" "$k" "$dir" "$tests" "$det" "$rules" <<'PY'
+python3 - "$id" "$k" "$dir" "$tests" "$det" "$rules" "$src" "$name" <<'PY'
 import json,sys,re
-id,k,d,tests,det,rules=sys.argv[1:7]
-readme=open(f'/tmp/mut/{id}/{k}/README.md').read() if True else ''
+id,k,d,tests,det,rules,src,name=sys.argv[1:9]
+readme=open(f'{src}/README.md').read()
 meta={"breaks_property":id,"mutation":k,"demo_package_dir":d,"demo_tests":tests.split('|'),
  "needs_to_manifest":re.sub(r'\s+',' ',readme)[:900],
  "confirmed":{"applies_and_builds":True,"existing_suite_passes_with_change":True,"demo_fails_with_change":True,"demo_passes_without_change":True,
    "how":"tools/validate_seeded.sh: scratch git worktree of /repo HEAD; git apply; go build ./...; go test -vet=off -count=1 ./...; demo copied into the package dir and run with -run; change reverted and demo re-run"},
  "detected_by_checks":det.split(),"violated_rules":[r for r in rules.split(';') if r]}
-json.dump(meta,open(f'/verif/seeded/{id}-{k}/meta.json','w'),indent=1)
-print(f"{id}-{k}: detected_by={det.strip() or 'NONE'}")
+json.dump(meta,open(f'/verif/seeded/{name}/meta.json','w'),indent=1)
+print(f"{name}: detected_by={det.strip() or 'NONE'}")
 PY
